@@ -100,6 +100,37 @@ impl LocalEnv {
     }
 }
 
+/// Verification hook H1: read-only view of the per-variable static kind, return kind and
+/// compile-time constant, which no public API exposes.
+#[cfg(feature = "verif-hooks")]
+impl LocalEnv {
+    #[must_use]
+    pub fn verif_bindings(&self) -> Vec<(String, Kind, Option<Value>)> {
+        let mut out: Vec<_> = self
+            .bindings
+            .iter()
+            .map(|(ident, details)| {
+                (
+                    ident.to_string(),
+                    details.type_def.kind().clone(),
+                    details.value.clone(),
+                )
+            })
+            .collect();
+        out.sort_by(|a, b| a.0.cmp(&b.0));
+        out
+    }
+}
+
+/// Verification hook H1: the compile-time constant recorded for the external target, if any.
+#[cfg(feature = "verif-hooks")]
+impl ExternalEnv {
+    #[must_use]
+    pub fn verif_target_constant(&self) -> Option<Value> {
+        self.target.value.clone()
+    }
+}
+
 /// A lexical scope within the program.
 #[derive(Debug, Clone)]
 pub struct ExternalEnv {
